@@ -101,6 +101,36 @@ def replay(chk, cases, want, sets_of=None):
                         and "DataOutIsCallersData" in want:
                     chk.violation(dict(base, clause="DataOutIsCallersData", field="", detail={}),
                                   dedup=("DataOutIsCallersData", name, s))
+        # ---- C02 on the constructor route: the CDB a constructor built decodes to the values it was built
+        # from, and building again on the same object gives the same bytes and leaves cmd.cdb alone
+        if want & CLAUSES["C02"] and c["ctor"] and not c["refuse"]:
+            for s in sets:
+                if cmds.opcode(name, s) is None:
+                    continue
+                cmd, exc, passed = cmds.construct(name, s, a, c["ph"])
+                if cmd is None:
+                    break
+                d = _full_dict(c)
+                d["opcode"] = int(cmd.opcode.value)
+                n += 1
+                base = {"cls": name, "set": s, "args": a, "dict": d, "what": "MC_T10Cdb case (constructor, then codec)"}
+                try:
+                    out = cmd.unmarshall_cdb(bytearray(cmd.cdb))
+                    bad = sorted(k for k in d if k in out and int(out[k]) != d[k])
+                    if bad:
+                        chk.violation(dict(base, clause="DecEnc", field=",".join(bad),
+                                           detail={"expected": {k: d[k] for k in bad}, "observed": {k: int(out[k]) for k in bad}}),
+                                      dedup=("DecEnc", name, "ctor", ",".join(bad)))
+                    first = bytes(cmd.cdb)
+                    again = bytes(cmd.build_cdb(**d))
+                    if again != first or bytes(cmd.cdb) != first:
+                        chk.violation(dict(base, clause="EncDec", field="second build_cdb on the same object",
+                                           detail={"first": list(first), "again": list(again), "cdb_after": list(cmd.cdb)}),
+                                      dedup=("EncDec", name, "rebuild"))
+                except Exception as ex:
+                    chk.violation(dict(base, clause="CodecRaised", field="", detail={"raised": type(ex).__name__}),
+                                  dedup=("CodecRaised", name, "ctor", type(ex).__name__))
+                break
         # ---- dictionary level (C02; also reaches the high bits of allocation-coupled fields for C01)
         if want & CLAUSES["C02"] or ("WireFormat" in want and not c["ctor"]):
             K = cmds.klass(name)
